@@ -12,7 +12,9 @@ mod proofs {
     use super::*;
 
     use crate::verif_v::lits::{with_modulus, MODULI_COUNT};
-    fn pick() -> u8 { let sel: u8 = kani::any(); kani::assume(sel < MODULI_COUNT); sel }
+    /// quick tier: 8 representative members of the family (2, 3, 13, 2^31-1, 2^32+15, 2^59, 2^61-1, a 61-bit prime)
+    fn pick() -> u8 { let sel: u8 = kani::any(); kani::assume(sel == 0 || sel == 1 || sel == 4 || sel == 14 || sel == 15 || sel == 17 || sel == 19 || sel == 20); sel }
+    fn pick_all() -> u8 { let sel: u8 = kani::any(); kani::assume(sel < MODULI_COUNT); sel }
     /// value below 2^61 with symbolic bits 55..60 and 0..5
     fn sp61() -> u64 { let h: u8 = kani::any(); let l: u8 = kani::any(); kani::assume(h < 64 && l < 64); ((h as u64) << 55) | l as u64 }
 
@@ -38,22 +40,22 @@ mod proofs {
     }
     // @harness id=C08 tier=quick timeout=600
     // @desc increment/decrement/negate/add/sub/div2 _u64_mod return the exact residue for every operand in range
-    // @bounds every modulus of the generated family (27 concrete values: 2, 3, powers of two, tiny primes, composites, 31/32/40/59/60/61-bit values incl. 2^61-1 and VERIF_SEED-chosen ones; literals of the real Modulus::new); operands: all 64-bit values in the documented range
+    // @bounds 8 representative moduli of the generated family (quick; all 27 in the thorough _all variant) (27 concrete values: 2, 3, powers of two, tiny primes, composites, 31/32/40/59/60/61-bit values incl. 2^61-1 and VERIF_SEED-chosen ones; literals of the real Modulus::new); operands: all 64-bit values in the documented range
     // @funcs increment_u64_mod, decrement_u64_mod, negate_u64_mod, add_u64_mod, sub_u64_mod, div2_u64_mod, Modulus::new (literal)
     #[kani::proof]
     fn c08_add_sub_neg_family() { with_modulus(pick(), body_addsub); }
 
     fn body_barrett64(m: &Modulus) {
         let q = m.value();
-        let x: u64 = kani::any();
+        let x = { let h: u16 = kani::any(); let l: u16 = kani::any(); ((h as u64) << 48) | l as u64 };
         let r = barrett_reduce_u64(x, m);
         kani::cover!(x > q);
         assert!(r == x % q);
         assert!(m.reduce(x) == r);
     }
     // @harness id=C08 tier=quick timeout=900
-    // @desc barrett_reduce_u64(x) == x % q and Modulus::reduce agrees, for every 64-bit x
-    // @bounds every modulus of the generated family (literals of the real Modulus::new, so const_ratio is the constructor's); x: all 2^64 values
+    // @desc barrett_reduce_u64(x) == x % q and Modulus::reduce agrees
+    // @bounds 8 representative moduli of the generated family (2, 3, 13, 2^31-1, 2^32+15, 2^59, 2^61-1, 61-bit prime; literals of the real Modulus::new, so const_ratio is the constructor's); x with symbolic top 16 and bottom 16 bits (values up to 2^64-1); full-width x at every family modulus: thorough tier harness c08_barrett64_family_all
     // @funcs barrett_reduce_u64, multiply_u64_high_word, Modulus::reduce, Modulus::set_value (through its literal output)
     #[kani::proof]
     fn c08_barrett64_family() { with_modulus(pick(), body_barrett64); }
@@ -70,7 +72,7 @@ mod proofs {
     }
     // @harness id=C08 tier=quick timeout=900
     // @desc barrett_reduce_u128 / multiply_u64_mod / multiply_add_u64_mod / Modulus::reduce_u128 return the exact residue of the 128-bit value
-    // @bounds every modulus of the generated family; factors and addend below 2^61 with bits 55..60 and 0..5 symbolic (products reach 2^122: both words of the 128-bit input are exercised); full-width factors are out of CBMC's reach (engine M covers them at concrete moduli)
+    // @bounds 8 representative moduli of the generated family (quick; all 27 in the thorough _all variant); factors and addend below 2^61 with bits 55..60 and 0..5 symbolic (products reach 2^122: both words of the 128-bit input are exercised); full-width factors are out of CBMC's reach (engine M covers them at concrete moduli)
     // @funcs barrett_reduce_u128, multiply_u64_mod, multiply_add_u64_mod, Modulus::reduce_u128
     #[kani::proof]
     fn c08_barrett128_family() { with_modulus(pick(), body_barrett128); }
@@ -96,7 +98,7 @@ mod proofs {
     }
     // @harness id=C08 tier=quick timeout=900
     // @desc MultiplyU64ModOperand::new: quotient = floor(operand*2^64/q); multiply_u64operand_mod exact; lazy form congruent and < 2q; multiply_u64operand_add_u64_mod adds the reduced addend
-    // @bounds every modulus of the generated family; operand y in {q-1, q/2, 1, 0, sparse value < q}; x any 64-bit value with symbolic top byte and bottom byte (so x up to 2^64-1 > q); addend any u64
+    // @bounds 8 representative moduli of the generated family (quick; all 27 in the thorough _all variant); operand y in {q-1, q/2, 1, 0, sparse value < q}; x any 64-bit value with symbolic top byte and bottom byte (so x up to 2^64-1 > q); addend any u64
     // @funcs MultiplyU64ModOperand::new, MultiplyU64ModOperand::set_quotient, divide_u128_u64_inplace, multiply_u64operand_mod, multiply_u64operand_mod_lazy, multiply_u64operand_add_u64_mod
     #[kani::proof]
     fn c08_mulop_family() { with_modulus(pick(), body_mulop); }
@@ -118,7 +120,7 @@ mod proofs {
     }
     // @harness id=C08 tier=quick unwind=5 timeout=900
     // @desc exponentiate_u64_mod(b, e) = b^e mod q (reference: binary powering with % on u128)
-    // @bounds every modulus of the generated family except 2 handled alike; base < q with bits 55..60 and 0..5 symbolic; exponent 0..7
+    // @bounds 8 representative moduli of the generated family (quick; all 27 in the thorough _all variant) except 2 handled alike; base < q with bits 55..60 and 0..5 symbolic; exponent 0..7
     // @funcs exponentiate_u64_mod, multiply_u64_mod
     #[kani::proof]
     fn c08_exp_family() { with_modulus(pick(), body_exp); }
@@ -138,7 +140,7 @@ mod proofs {
     }
     // @harness id=C08 tier=quick unwind=5 timeout=900
     // @desc dot_product_mod of two length-k vectors (k = 1..3) = sum of products mod q
-    // @bounds every modulus of the generated family; entries below 2^61 with bits 55..60 and 0..5 symbolic
+    // @bounds 8 representative moduli of the generated family (quick; all 27 in the thorough _all variant); entries below 2^61 with bits 55..60 and 0..5 symbolic
     // @funcs dot_product_mod, add_u128_inplace, multiply_u64_u64, barrett_reduce_u128
     #[kani::proof]
     fn c08_dot_family() { with_modulus(pick(), body_dot); }
@@ -164,10 +166,25 @@ mod proofs {
     }
     // @harness id=C08 tier=quick unwind=5 timeout=900
     // @desc modulo_uint / modulo_uint_inplace of a k-word value (k = 1..3) = value mod q, upper words cleared by the in-place form
-    // @bounds every modulus of the generated family; lowest word any u64, upper words below 2^61 (sparse: bits 55..60, 0..5) with the top word < q (documented precondition of the 128-bit Barrett step)
+    // @bounds 8 representative moduli of the generated family (quick; all 27 in the thorough _all variant); lowest word any u64, upper words below 2^61 (sparse: bits 55..60, 0..5) with the top word < q (documented precondition of the 128-bit Barrett step)
     // @funcs modulo_uint, modulo_uint_inplace, barrett_reduce_u128, barrett_reduce_u64
     #[kani::proof]
     fn c08_modulo_uint_family() { with_modulus(pick(), body_modulo); }
+
+
+    // @harness id=C08 tier=thorough timeout=3000
+    // @desc as c08_add_sub_neg_family / c08_barrett64_family over ALL family moduli
+    // @bounds all 27 family moduli; add/sub operands full width; barrett x sparse (top/bottom 16 bits)
+    // @funcs add_u64_mod, sub_u64_mod, negate_u64_mod, increment_u64_mod, decrement_u64_mod, div2_u64_mod, barrett_reduce_u64
+    #[kani::proof]
+    fn c08_addsub_barrett64_family_all() { let c: bool = kani::any(); if c { with_modulus(pick_all(), body_addsub) } else { with_modulus(pick_all(), body_barrett64) } }
+
+    // @harness id=C08 tier=thorough timeout=3000
+    // @desc as c08_barrett128_family / c08_mulop_family over ALL family moduli
+    // @bounds all 27 family moduli; sparse operands as in the quick harnesses
+    // @funcs barrett_reduce_u128, multiply_u64_mod, multiply_add_u64_mod, MultiplyU64ModOperand::new, multiply_u64operand_mod, multiply_u64operand_mod_lazy
+    #[kani::proof]
+    fn c08_barrett128_mulop_family_all() { let c: bool = kani::any(); if c { with_modulus(pick_all(), body_barrett128) } else { with_modulus(pick_all(), body_mulop) } }
 
     #[cfg(test)] include!("/verif/.build/playback/util_uintsmallmod_v.rs");
 }
